@@ -151,7 +151,7 @@ def market_callee_specs():
 
 
 @task("Market._add_order", props=["C19", "C04", "C08", "C10", "C02"], functions=["Market._add_order", "Market.convert_to_tick_level",
-      "Market.convert_to_tick_level_rounded_lower", "Market.convert_to_tick_level_rounded_upper", "OrderLog.__init__"], replay="market_ops")
+      "Market.convert_to_tick_level_rounded_lower", "Market.convert_to_tick_level_rounded_upper", "OrderLog.__init__"], replay="market_ops", heavy=True)
 def t_add_order():
     obl, info = ADD_ORDER.verify(specs=market_callee_specs(), setup=B.setup_book)
     return {"obligations": obl, "info": [info]}
